@@ -10,6 +10,7 @@ import (
 	"encoding/hex"
 	"encoding/json"
 	"errors"
+	"flag"
 	"fmt"
 	"math"
 	"os"
@@ -393,7 +394,12 @@ func genBase(rt *rapid.T) base {
 		secLen = rapid.IntRange(1, 64).Draw(rt, "base.secretLen")
 	}
 	s.Secret = gen.Bytes(rt, "base.secret", secLen)
-	s.Password = gen.Bytes(rt, "base.pw", rapid.IntRange(0, 12).Draw(rt, "base.pwLen"))
+	if rapid.Bool().Draw(rt, "base.pwRaw") {
+		s.Password = gen.Bytes(rt, "base.pw", rapid.IntRange(0, 12).Draw(rt, "base.pwLen"))
+	} else {
+		// empty / ASCII / multi-byte, a third with white space, CR, LF or NUL at an edge
+		s.Password, _ = genPassword(rt, "base.pwText")
+	}
 	s.Salt = gen.Bytes(rt, "base.salt", rapid.SampledFrom([]int{32, 16, 8, 1}).Draw(rt, "base.saltLen"))
 	s.IV = gen.Bytes(rt, "base.iv", 16)
 	id := gen.Bytes(rt, "base.id", 16)
@@ -662,6 +668,13 @@ func genMutant(rt *rapid.T, rec *evid.Recorder, allowRisky bool) mutant {
 	core, rest := fieldsOf(b.kdf)
 	n := rapid.SampledFrom([]int{1, 1, 1, 2, 2, 3}).Draw(rt, "mut.count")
 	var labels []string
+	// one case in seven reads the file with a near miss of its password (white space, CR, LF, NUL at an edge,
+	// trimmed, ...) while the MAC stays the one of the password the file was written with; two thirds of
+	// those leave the document itself intact, so that the password alone decides
+	variantPw := rapid.IntRange(0, 6).Draw(rt, "mut.pwVariant") == 0
+	if variantPw && rapid.IntRange(0, 2).Draw(rt, "mut.pwVariantOnly") > 0 {
+		n = 0
+	}
 	risky := false
 	for i := 0; i < n; i++ {
 		l := fmt.Sprintf("mut.%d", i)
@@ -682,11 +695,25 @@ func genMutant(rt *rapid.T, rec *evid.Recorder, allowRisky bool) mutant {
 		labels = append(labels, "mutant:"+lab)
 	}
 	pw := b.pw
-	if rapid.IntRange(0, 19).Draw(rt, "mut.otherPw") == 7 {
+	if variantPw {
+		var how string
+		pw, how = genPasswordVariant(rt, "mut.variant", b.pw)
+		labels = append(labels, "mutant:password-variant:"+how)
+		if n == 0 {
+			labels = append(labels, "mutant:password-variant-only")
+		}
+	} else if rapid.IntRange(0, 19).Draw(rt, "mut.otherPw") == 7 {
 		pw = append(append([]byte{}, pw...), 'x')
 		labels = append(labels, "mutant:other-password")
 	}
-	if rapid.IntRange(0, 9).Draw(rt, "mut.recompute") < 8 {
+	if variantPw {
+		// the MAC of the writer's password over the mutated document (where derivable)
+		if n > 0 && recomputeMAC(b.doc, b.pw, b.kdf) {
+			labels = append(labels, "mac:recomputed-for-written-password")
+		} else {
+			labels = append(labels, "mac:left-as-is")
+		}
+	} else if rapid.IntRange(0, 9).Draw(rt, "mut.recompute") < 8 {
 		if recomputeMAC(b.doc, pw, b.kdf) {
 			labels = append(labels, "mac:recomputed")
 		} else {
@@ -704,7 +731,11 @@ func genMutant(rt *rapid.T, rec *evid.Recorder, allowRisky bool) mutant {
 		labels = append(labels, "mutant:cost-repaired")
 		repairCosts(b.doc)
 		risky = false
-		recomputeMAC(b.doc, pw, b.kdf)
+		if variantPw {
+			recomputeMAC(b.doc, b.pw, b.kdf)
+		} else {
+			recomputeMAC(b.doc, pw, b.kdf)
+		}
 		file, _ = json.Marshal(b.doc)
 		if reason := overCap(file); reason != "" {
 			rt.Fatalf("harness: mutant still over the cap (%s) after repair: %s", reason, file)
@@ -864,6 +895,21 @@ func setup(rec *evid.Recorder) *evid.Kind[FileCase] {
 	return k
 }
 
+// more holds the kinds added for histories and concurrent callers (registered in TestReplay too).
+type more struct {
+	kSeq     *evid.Kind[SeqCase]
+	poolFile *evid.Pool[FileCase]
+	poolSeq  *evid.Pool[SeqCase]
+}
+
+func setupMore(rec *evid.Recorder, poolMax int) more {
+	return more{
+		kSeq:     evid.NewKind(rec, "seq", judgeSeq),
+		poolFile: evid.NewPool(rec, "concurrent", judgeFile, poolMax),
+		poolSeq:  evid.NewPool(rec, "concurrent-seq", judgeSeq, poolMax/2),
+	}
+}
+
 // declare writes the case a worker is about to judge when it is in a risky class, so that a
 // worker death (address-space limit) is attributable; the returned function removes the file.
 func declare(rec *evid.Recorder, c FileCase) func() {
@@ -909,10 +955,17 @@ func check(rt *rapid.T, rec *evid.Recorder, k *evid.Kind[FileCase], c FileCase, 
 func TestCheck(t *testing.T) {
 	rec := evid.Start("C15", rule)
 	defer rec.Finish()
+	// the worker runs under an address-space limit; rapid's shrinker remembers every attempt it made (about 2 KB
+	// per attempt at ~50,000 attempts a second for this generator), so the default 30 s of shrinking can exhaust it
+	if os.Getenv("VERIF_SHRINKTIME") == "" && flag.Lookup("rapid.shrinktime") != nil {
+		_ = flag.Set("rapid.shrinktime", "8s")
+	}
 	rec.Assume("reference: ref/v3ref strict reader (version 3, aes-128-ctr, 16-byte IV, scrypt/pbkdf2-hmac-sha256, parameter ranges, MAC), lenient only in syntax the specification leaves open (0x/upper-case hex, integral numbers written 32.0, empty salt/ciphertext, dklen > 32); JSON layer (member matching, duplicates, null) is encoding/json for both sides")
 	rec.Assume("not asserted: PBKDF2 c <= 0 (only 'no panic'); files whose cost parameters exceed the cap (scrypt 128*N*r > 64 MiB or N*r*p > 2^20, PBKDF2 c*blocks > 2^17, dklen > 2^20) are skipped and counted, except the dklen = 2^31 cases the property names, which are declared risky and run under the address-space limit")
 	rec.Assume("an error result is always acceptable here (that valid files are read is C07); an error together with an exposed key is not")
+	rec.Assume("kind seq (histories): members are files of the independent writer in the plain standard profile (same salt and password under different cost parameters, near-miss passwords) and copies whose cost parameters were altered under an unchanged MAC; for those both verdicts of the independent reader are definite, so each read must give that verdict whatever was read before - a standard file the reader decrypts must be read (the one place where this check demands acceptance), a file it rejects must not yield a key")
 	k := setup(rec)
+	m := setupMore(rec, 64)
 	rec.Corpus(t)
 
 	if rec.Shard == 0 {
@@ -927,22 +980,39 @@ func TestCheck(t *testing.T) {
 
 	riskyBudget := 2 // dklen = 2^31 costs ~2 GiB and tens of seconds per evaluation on a tree that derives before it validates
 	rec.Rapid(t, "mutants", rec.N(4000, 30000), func(rt *rapid.T) {
-		m := genMutant(rt, rec, riskyBudget > 0)
-		if m.c.Risky {
+		mu := genMutant(rt, rec, riskyBudget > 0)
+		if mu.c.Risky {
 			riskyBudget--
 		}
-		check(rt, rec, k, m.c, m.macValid, m.labels)
+		check(rt, rec, k, mu.c, mu.macValid, mu.labels)
+		if !mu.c.Risky && mu.macValid {
+			m.poolFile.Offer(mu.c)
+		}
 	})
 
 	rec.Rapid(t, "arbitrary", rec.N(1500, 15000), func(rt *rapid.T) {
 		c, labels, nt := genArbitrary(rt)
 		check(rt, rec, k, c, nt, labels)
 	})
+
+	// histories: related files read one after the other in this process
+	rec.Rapid(t, "seq", rec.N(1200, 10000), func(rt *rapid.T) {
+		c, nt, cl := genSeq(rt)
+		m.kSeq.Check(rt, c, nt, cl...)
+		if nt {
+			m.poolSeq.Offer(c)
+		}
+	})
+
+	// the same judges from several goroutines at once (state shared between calls)
+	m.poolFile.Run(t, 4, 3, 16)
+	m.poolSeq.Run(t, 4, 2, 8)
 }
 
 func TestReplay(t *testing.T) {
 	rec := evid.Start("C15", rule)
 	setup(rec)
+	setupMore(rec, 0)
 	// a declared-risky case is declared again, so that a worker death during the replay is attributed to it
 	if b, err := os.ReadFile(os.Getenv("VERIF_REPLAY")); err == nil {
 		var rf evid.ReplayFile
